@@ -39,7 +39,11 @@ def prelude(extra_spec=(), stubs=True):
         parts.append(f.read())
     if stubs:
         with open(os.path.join(HERE, 'stubs.rs')) as f:
-            parts.append(f.read())
+            st = f.read()
+        if stubs == 'value':
+            # only the stand-ins on Value / CallData (used by the unit that proves the thread helpers themselves)
+            st = st[:st.index('impl VmGreenThread {')]
+        parts.append(st)
     for p in extra_spec:
         with open(p) as f:
             parts.append(f.read())
